@@ -260,3 +260,63 @@ Proof.
       * now apply (r_act _ _ _ _ HR).
   - intros L. exact L.
 Qed.
+
+(* ---- a body raised: the frame is abandoned --------------------------------- *)
+Lemma before_sentinel_app (f : list gid) r :
+  before_sentinel (map Some f ++ None :: r) = map Some f.
+Proof. induction f as [|x f IH]; cbn [map app before_sentinel]; auto. now rewrite IH. Qed.
+
+Lemma from_sentinel_app (f : list gid) r :
+  from_sentinel (map Some f ++ None :: r) = None :: r.
+Proof. induction f as [|x f IH]; cbn [map app from_sentinel]; auto. Qed.
+
+Lemma Inv_restore s f b :
+  Inv s f b -> Inv (set_active s (rot_to_sentinel (active s))) [] (b ++ f).
+Proof.
+  intros [A1 A2 A3 A4 A5 A6 A7 A8 A9 A10 A11]. constructor; sproj; auto.
+  - rewrite A1. unfold rot_to_sentinel. rewrite before_sentinel_app, from_sentinel_app.
+    cbn [map app]. now rewrite map_app.
+  - cbn [app]. apply NoDup_app_inv in A2. destruct A2 as (N1 & N2 & N3).
+    apply NoDup_app_intro; auto. intros x Hb Hf. now apply (N3 x Hf).
+  - intros x. cbn [app]. rewrite <- (A3 x), !in_app_iff. tauto.
+Qed.
+
+Lemma abort_sim s t g f b k :
+  Inv s (g :: f) b -> Rel s t (g :: f) b ->
+  ~ In g (t_order t) -> ~ In g (t_due t) ->
+  exists s1, abort (set_done s g) g = (s1, false) /\ Inv s1 [] (b ++ f) /\
+             Rel s1 (sp_result t g (RRaise k)) [] (b ++ f) /\
+             (NoLeak s -> NoLeak s1).
+Proof.
+  intros HI HR Ho Hd. destruct (front_head _ _ _ _ HI) as (Ea & Eg & Ep & Hn & ND & Hpos).
+  unfold abort. sproj. rewrite Eg, Ep. eexists. split; [reflexivity|].
+  assert (Hnn : ~ In g (t_norder t)).
+  { intros H. apply (filter_mem_sub _ _ (r_nord _ _ _ _ HR)) in H. apply Hn.
+    apply in_or_app. now right. }
+  split; [|split].
+  - assert (HI1 : Inv (mkSt (adel g (gens s)) (tl (active s)) (waitq s) (remz g (killq s))
+                            (remz g (proms s)) (pv s) (timer s) (nrid s) (pcs s)
+                            (g :: gdone s)) f b).
+    { apply (Inv_remove s g f b); auto. intros x [<-|H]; auto. }
+    exact (Inv_restore _ _ _ HI1).
+  - constructor; cbn [sp_result]; sproj.
+    + intros x. rewrite alookup_adel, (r_st _ _ _ _ HR). unfold abs_st. sproj.
+      rewrite alookup_adel, memz_remz. destruct (x =? g); auto.
+    + apply NoDup_akeys_adel, (r_nd _ _ _ _ HR).
+    + apply (r_pc _ _ _ _ HR).
+    + apply (r_val _ _ _ _ HR).
+    + f_equal. apply (r_fin _ _ _ _ HR).
+    + reflexivity.
+    + apply filter_mem_app2.
+      * apply (r_nord _ _ _ _ HR).
+      * apply (pop_ord g); auto. apply (r_ord _ _ _ _ HR).
+      * apply NoDup_app_inv in ND. destruct ND as (_ & _ & N3). intros x Hb Hf. now apply (N3 x Hf).
+    + intros x [].
+    + intros x _ [].
+    + intros x Hx. cbn [app] in Hx. rewrite app_nil_r in Hx.
+      rewrite alookup_adel_neq.
+      * apply (r_act _ _ _ _ HR). rewrite !in_app_iff in *. tauto.
+      * intros ->. rewrite in_app_iff in Hx. tauto.
+  - intros L x Hx. sproj. rewrite memz_remz in Hx. rewrite amem_adel.
+    apply andb_true_iff in Hx. destruct Hx as [Hx1 Hx2]. rewrite Hx1. cbn. now apply L.
+Qed.
